@@ -221,7 +221,11 @@ fn conflict_case(rng: &mut Rng, rep: &mut Report, cfg: &GenCfg) {
                 0 => c.comment = Some(text.into()), 1 => c.fields.get_mut(mk.as_ref().unwrap()).unwrap().comment = Some(text.into()),
                 2 => c.methods.get_mut(mk.as_ref().unwrap()).unwrap().comment = Some(text.into()),
                 _ => c.methods.get_mut(mk.as_ref().unwrap()).unwrap().params.get_mut(&pi.unwrap()).unwrap().comment = Some(text.into()) } };
-            set(&mut a, "left comment"); set(&mut b, "right comment");
+            // the two comments differ in one of several ways; near-equal pairs (one a line-wise prefix of the other, only a trailing
+            // line break or CR LF apart, one empty) are where a sloppy comparison would call them equal
+            let (ta, tb): (&str, &str) = *rng.pick(&[("left comment", "right comment"), ("doc line 1", "doc line 1\nand a second line"), ("doc\nmore", "doc"), ("doc", "doc\n"), ("a\r\nb", "a\nb"), ("", "text"), ("same start, other end A", "same start, other end B"), ("x ", "x")]);
+            rep.count(&format!("conflict.comment_pair.{}", match (ta, tb) { ("left comment", _) => "unrelated", ("doc line 1", _) | ("doc\nmore", _) => "line_wise_prefix", ("doc", _) => "trailing_line_break", ("a\r\nb", _) => "crlf_vs_lf", ("", _) => "one_empty", ("x ", _) => "trailing_space", _ => "common_prefix" }));
+            set(&mut a, ta); set(&mut b, tb);
             if ref_join(&a, &b) != Err(Conflict::Comment(lname)) { eprintln!("HARNESS-ERROR C09 reference does not refuse an injected comment conflict"); std::process::exit(3); }
             expected_sig = format!("C09 conflict: differing {lname} comments accepted");
         }
